@@ -162,9 +162,93 @@ def route_steps(rng, legs, tag):
     return steps, final
 
 
+def make_doubled_network(rng, sym, static, dtype, keep, pending):
+    """<psi|psi>: a chain of k ket tensors (mostly odd) and their conjugates, physical legs joined.
+    Every label occurs twice (x and its conjugate), so merged label lists contain nested conjugate pairs."""
+    k = rng.choice([2, 2, 3])
+    labels = rng.sample(range(1, 60), k)
+    kets, klegs = [], []
+    bonds = [gen.rand_index(rng, sym, max_charges=2, max_size=2) for _ in range(k - 1)]
+    for t in range(k):
+        lg, ix = [f"p{t}"], [gen.rand_index(rng, sym, max_charges=2, max_size=2)]
+        if t > 0:
+            lg.append(f"b{t - 1}")
+            ix.append(bonds[t - 1].conj())
+        if t < k - 1:
+            lg.append(f"b{t}")
+            ix.append(bonds[t])
+        order = list(range(len(lg)))
+        rng.shuffle(order)
+        lg = [lg[o] for o in order]
+        ix = [ix[o] for o in order]
+        kets.append(gen.rand_array(rng, sym, indices=ix, fermi=True, static=static, dtype=dtype, keep=keep,
+                                   pending=pending, label=labels[t], parity=rng.choice([1, 1, 1, 0, None])))
+        klegs.append(lg)
+    bras = [x.conj() for x in kets]
+    blegs = [[nm if nm.startswith("p") else "c" + nm for nm in lg] for lg in klegs]
+    return f"doubled{k}", kets + bras, klegs + blegs, k
+
+
+def halves_route(legs, k, tag, ket_first):
+    """contract the ket half, the bra half, then the two halves (in the given order)"""
+    steps = []
+    live = {f"T{t}": list(l) for t, l in enumerate(legs)}
+
+    def contract(a, b, outn):
+        common = [nm for nm in live[a] if nm in live[b]]
+        xa = [live[a].index(nm) for nm in common]
+        xb = [live[b].index(nm) for nm in common]
+        steps.append({"out": [outn], "op": "tensordot", "in": [a, b],
+                      "params": {"axes": [xa, xb], "mode": "auto"}})
+        live[outn] = [nm for nm in live[a] if nm not in common] + [nm for nm in live[b] if nm not in common]
+        del live[a], live[b]
+        return outn
+
+    halves = []
+    for h, rng_ in enumerate((range(k), range(k, 2 * k))):
+        acc = f"T{rng_[0]}"
+        for j, t in enumerate(rng_[1:]):
+            acc = contract(acc, f"T{t}", f"{tag}H{h}_{j}")
+        halves.append(acc)
+    a, b = halves if ket_first else halves[::-1]
+    return steps, contract(a, b, f"{tag}Z")
+
+
 def gen_cases(seed, chunk, n, tier):
     rng = random.Random(seed * 7919 + chunk * 104729 + 4)
     out = []
+    for _ in range(max(1, n // 5)):
+        sym = rng.choice(gen.SYMS)
+        static = rng.random() < 0.7
+        dtype = rng.choice(["float64", "complex128"])
+        pending = rng.random() < 0.4
+        shape, tens, legs, k = make_doubled_network(rng, sym, static, dtype, rng.choice([0.7, 1.0]), pending)
+        env = {f"T{t}": x for t, x in enumerate(tens)}
+        steps, finals = [], []
+        for r, kf in enumerate((True, False)):
+            st, fin = halves_route(legs, k, f"r{r}", kf)
+            steps += st
+            finals.append(fin)
+        for r in (2, 3):
+            st, fin = route_steps(rng, legs, f"r{r}")
+            steps += st
+            finals.append(fin)
+        res, env2 = impl.run_prog(env, steps)
+        orc = None
+        if not all("ok" in r for r in res):
+            orc = "a route raised: " + str([r.get("msg") for r in res if "raise" in r][:2])
+        else:
+            vals = [ser.canon_array(ser.enc_array(env2[f]), tables=False) for f in finals]
+            for r in range(1, 4):
+                if vals[r] != vals[0]:
+                    orc = (f"<psi|psi> network: route {r} and route 0 (ket half . bra half) give different results "
+                           f"(value, sign or labels)")
+                    break
+            if orc is None and getattr(env2[finals[0]], "oddpos", ()):
+                orc = f"fully contracted <psi|psi> keeps labels {[(o.label, o.dual) for o in env2[finals[0]].oddpos]}"
+        meta = dict(sym=sym, static=static, shape=shape, pending=pending, nodd=sum(int(t.parity) for t in tens))
+        out.append(dict(case=_mk_case(env, steps), impl=stream.strip_py(res), oracle=orc, meta=meta,
+                        nontrivial=bool(meta["nodd"] >= 2), op="network", triggers=[]))
     for _ in range(n):
         sym = rng.choice(gen.SYMS)
         static = rng.random() < 0.7
